@@ -103,9 +103,9 @@ def run(chk, prog, tier):
     chk.floor("C09.b-init", len(inits), 1, "calls of _initialize in run_model")
     for c in inits:
         nid = flow.node_of(c)
-        deps = {(norm(cfg.nodes[t].ast), l) for t, l in cfg.transitive_control_deps(nid) if cfg.nodes[t].kind == "test"}
+        on = {(n.id, True) for n in cfg.live_nodes() if n.kind == "test" and norm(n.ast) == "initialize_model"}
         construct = "self._initialize()"
-        if ("initialize_model", True) in deps:
+        if on and not cfg.reachable_without_edges(nid, on):
             chk.ok("C09.b", fi.key, construct, "only under initialize_model")
         else:
             chk.violation("C09.b", fi.key, construct, "the model is (re-)initialised independently of initialize_model", loc=fi.loc(c))
